@@ -143,8 +143,24 @@ def handleSeq (req ans : String) : Verdict :=
       | i :: rest => match Spec.execRef (r.cur + k) m c i with
         | .ok (st', m', c', _) => runS (k + 1) m' c' st' rest
         | .error e => .error e
+    -- is every step free of undefined flag bits and of known findings (judged on the model's states)?
+    let rec clean (k : Nat) (m : Machine) (c : Ctx) : List Instr → Bool
+      | [] => true
+      | i :: rest =>
+        let undefOk := match Spec.execRef (r.cur + k) m c i with
+          | .ok (_, _, _, u) => u == 0#16
+          | .error _ => true
+        if !undefOk || Spec.knownFinding m c i != "-" then false else
+        match exec (r.cur + k) m c i with
+        | .ok (_, m', c') => clean (k + 1) m' c' rest
+        | .error _ => true
     let model := fmtOut r.initOv (runM 0 r.m r.ctx .NEXT is)
     let spec := fmtOut r.initOv (runS 0 r.m r.ctx .NEXT is)
-    { model := model, specOk := ans == spec, spec := spec, nontrivial := is.length > 1 }
+    -- sequences containing a step with undefined flags or a known finding are compared with the model only
+    -- (the model refines the reference up to exactly those bits: Props.ExecAll.exec_refines)
+    if clean 0 r.m r.ctx is then
+      { model := model, specOk := ans == spec, spec := spec, nontrivial := is.length > 1 }
+    else
+      { model := model, specOk := ans == model, spec := "model (sequence with undefined flags / known findings): " ++ model, nontrivial := is.length > 1 }
 
 end Driver
